@@ -100,8 +100,10 @@ def nav(d, path):
 
 
 def apply_edit(conc, loads, d, op):
-    blk = nav(d, op["path"])
     k = op["k"]
+    if k == "reload":
+        return loads(impl.dumper()(d))
+    blk = nav(d, op["path"])
     if k == "set":
         blk[concretise.case(op["key"], op["kc"])] = conc.expected(op["pv"])
     elif k == "del":
@@ -153,7 +155,9 @@ def check_history(ck, conc, loads, dumps, hist):
         ck.count()
         sig_where = "%s|%s" % (op["k"], op.get("key", ""))
         try:
-            apply_edit(conc, loads, d, op)
+            nd = apply_edit(conc, loads, d, op)
+            if nd is not None:
+                d = nd
         except Exception as ex:  # noqa: BLE001
             ck.violation("C03|edit-raised|%s|%s" % (sig_where, type(ex).__name__),
                          "dict API edit %s raised %s: %s" % (op["k"], type(ex).__name__, str(ex)[:100]),
